@@ -114,6 +114,10 @@ func dealCommitData(node *raftconn.RaftNode, client metaclient.MetaClient, stora
 	} else if dataWrapper.DataType == raftlog.ClearEntryLog {
 		bytes := dataWrapper.Data
 		index := encoding.UnmarshalUint64(bytes)
+		// never delete entries beyond this member's own snapshot index: they are replayed after a restart
+		if sp, spErr := node.Store.Snapshot(); spErr == nil && sp.Metadata.Index < index {
+			index = sp.Metadata.Index
+		}
 		err := node.Store.DeleteBefore(index)
 		if err != nil {
 			logger.GetLogger().Error("deleting entryLog err when dealCommitData", zap.Error(err), zap.String("db", database), zap.Uint32("pt", ptId))
